@@ -187,9 +187,29 @@ package repository
 // clockExists(name): the clock's file is there (and readable) when the repository is opened.
 //@ spec func clockExists(name string) bool
 //@ func (*GoGitRepo).getClock
-//@   trusted
-//@   modifies nothing
-//@   ensures (result1 == nil) == clockExists(name)
+//@   props C18
+//@   opt locks
+//@   opt pre_only_if=locks
+//@   opt post_unguarded
+//@   requires [clocks-lock-held] repo != nil && sync.mheld[&repo.clocksMutex]
+//@   modifies mapof(repo.clocks)
+//@   opt trusted_frame
+//@   defines (result1 == nil) == clockExists(name)
+//@   ensures [registered-when-found] result1 == nil ==> repo.clocks != nil && (name in repo.clocks) && repo.clocks[name] == result
+//@   ensures [absent-when-it-fails]  result1 != nil ==> !(repo.clocks != nil && (name in repo.clocks))
+//@   ensures [registered-clocks-kept] forall n string :: { (n in repo.clocks) } old(repo.clocks != nil && (n in repo.clocks)) ==> (n in repo.clocks) && repo.clocks[n] == old(repo.clocks[n])
+
+// ---- the table of open clocks (C18) --------------------------------------------------------------------------------
+// One clock object per name: repo.clocks is only read and written under clocksMutex, and an entry, once there, is
+// never replaced - two goroutines asking for the same missing clock must not each create one (the later one would
+// reset the registered clock and its file to 1, and times handed out would repeat).
+//@ guarded GoGitRepo.clocks by GoGitRepo.clocksMutex keeping GoGitRepo.clocks
+//@ func (*GoGitRepo).GetOrCreateClock
+//@   props C18 C05
+//@   opt locks
+//@   requires [not-held@locks] repo != nil && !sync.mheld[&repo.clocksMutex]
+//@   ensures [lock-balanced] forall m *sync.Mutex :: { sync.mheld[m] } sync.mheld[m] == old(sync.mheld[m])
+//@   ensures [registered] result1 == nil ==> repo.clocks != nil && (name in repo.clocks) && repo.clocks[name] == result
 // Every clock loader that declares a clock which does not exist is scheduled to run (its Witnesser rebuilds the
 // clocks of its entities from the stored data) - whichever of its clocks is the missing one.
 // detectedGitDir: the git directory found for the path the user is in (ghost record of detectGitPath)
@@ -227,3 +247,13 @@ package repository
 //@   props C15
 //@   stable git.configWrites
 //@   ensures [configuration-not-written] git.configWrites == old(git.configWrites)
+//@ func (*GoGitRepo).LocalStorage
+//@   trusted
+//@   modifies nothing
+//@ func (*GoGitRepo).AllClocks
+//@   props C18
+//@   opt locks
+//@   requires [not-held@locks] repo != nil && !sync.mheld[&repo.clocksMutex]
+//@   ensures [lock-balanced] forall m *sync.Mutex :: { sync.mheld[m] } sync.mheld[m] == old(sync.mheld[m])
+//@   loop 1
+//@     invariant sync.mheld[&repo.clocksMutex] && (forall m *sync.Mutex :: { sync.mheld[m] } m != &repo.clocksMutex ==> sync.mheld[m] == old(sync.mheld[m]))
